@@ -25,6 +25,9 @@ NENC = 19
 ISOLATED = {"Tree", "List", "Node", "*Node", "[]Node", "map[string]Tree", "P", "Ma", "EN", "*EN", "EA"}
 
 
+PRE = {"m": "map[string]", "s": "[]", "p": "*", "a": "[2]"}
+
+
 def js(x):
     return "+".join(x) if isinstance(x, list) else str(x)
 
@@ -124,7 +127,7 @@ def witness_of(case):
         fl.append("bytes=%d" % o["bytes"])
     if case.get("top"):
         return "%s=%s | %s" % (case["top"], case.get("v", "n"), ",".join(fl))
-    return "; ".join("%s %s%s=%s" % (f["n"], f["k"], (" `%s`" % f["t"]) if f["t"] else "", f["v"]) for f in case["f"]) + " | " + ",".join(fl)
+    return "; ".join("%s %s%s%s=%s" % (f["n"], "".join(PRE[x] for x in f.get("c") or []), f["k"], (" `%s`" % f["t"]) if f["t"] else "", f["v"]) for f in case["f"]) + " | " + ",".join(fl)
 
 
 def run_harness(ctx, cases_path, masks):
@@ -207,7 +210,8 @@ def gen_cases(ctx):
         raise Infra("case generation produced only %d cases" % len(cases))
     # named library types as top-level values (CreateKey / FullTypePath need a named top-level type)
     for top in ("S", "T1", "T2", "U", "V", "W", "Tagged", "Unexp", "Emb", "EmbPtr", "Simp", "PSimp", "Gen", "JM", "PJM", "TM",
-                "[]anyF", "[]anyP", "L1", "Str1", "Str2", "Col1", "Col2", "Col3", "[4]uint8", "[1]uint8", "[0]uint8", "BA4", "BS", "[]BS", "[][4]uint8", "N", "IS1", "IS64", "IP1", "Tree", "List", "Node", "*Node", "[]Node", "P", "Ma", "EN", "*EN", "EA"):
+                "[]anyF", "[]anyP", "L1", "Str1", "Str2", "Col1", "Col2", "Col3", "[4]uint8", "[1]uint8", "[0]uint8", "BA4", "BS", "[]BS", "[][4]uint8", "N", "IS1", "IS64", "IP1", "Tree", "List", "Node", "*Node", "[]Node", "P", "Ma", "EN", "*EN", "EA",
+                "Pair[int]", "Pair[string]", "Pair[Pair[int]]", "*Pair[int]", "[]Pair[int]", "anyPair", "Doc", "Doc2", "Dia", "Dia2", "SP", "E0", "[1]*int", "[1]*S", "Meta", "*Meta", "[]Meta", "map[string]Meta", "Ev", "LogT", "Hat", "Deep3", "Deep4", "Deep5", "Deep6"):
         for v in ("z", "n", "e"):
             if (top.startswith("[]") or top == "BS") and v == "z":
                 continue          # a nil top-level slice is not a struct value (null or [] are both fine)
